@@ -78,6 +78,12 @@ def parse_url_post(E):
 
 def build(E):
     spec = Spec("C19")
+    add_targets(E, spec)
+    return spec
+
+
+def add_targets(E, spec):
+    """parse_url / normalize_url / validate_url under contract (shared with C08)."""
     U.install(E)
     codecs_model.install(E)
 
@@ -159,7 +165,11 @@ def build(E):
         from pyvc.runner import run_replay
         return run_replay("C19", {"obligation": "__e7__", "seed": seed})
     spec.bounded.append(("E7/LEMMA-CANON exercised against the real urllib.parse", e7_bounded))
-    spec.targets = [PARSE, f"{URLMOD}:normalize_url", f"{URLMOD}:validate_url"]
-    spec.trusted = ["E7 (pyvc/urlmodel.py): urllib.parse facts, shape, round trip and authority definitions", "E6: UTF-8 codec lemmas"]
-    spec.notes = ["IPv6 zone identifiers and Python 3.12's validation of bracketed hosts are outside the E7 model; replay uses real IPv6 literals"]
+    if not hasattr(spec, "event_contracts"):
+        spec.event_contracts = {}
+    for q in (PARSE, f"{URLMOD}:normalize_url", f"{URLMOD}:validate_url"):
+        spec.event_contracts[q] = E.contracts[q]
+        spec.targets.append((q, None))
+    spec.trusted += ["E7 (pyvc/urlmodel.py): urllib.parse facts, shape, round trip and authority definitions", "E6: UTF-8 codec lemmas"]
+    spec.notes += ["IPv6 zone identifiers and Python 3.12's validation of bracketed hosts are outside the E7 model; replay uses real IPv6 literals"]
     return spec
